@@ -1415,15 +1415,20 @@ def addSets : List Nat → List Nat → Except SizeErr (List Nat)
     | .error e => .error e
     | .ok t => addSets t is
 
-/-- lowering + fallback set + `BuildUserspace`/`Build`'s domain-matcher construction: number of
-match sets of the program, or the build error. -/
-def compileSize (emit : List Char → Option Emit) (maxLen : Nat) (rules : List (List Fn × Fn)) : Except SizeErr Nat :=
+/-- lowering + fallback set, the total-length check of the traffic builder (51cbe59:
+`len(b.rules) > MaxMatchSetLen` is an error before anything is built; `totalLimit = false` for the
+DNS matchers, which have no such table), then `BuildUserspace`/`Build`'s domain-matcher
+construction: number of match sets of the program, or the build error. -/
+def compileSize (emit : List Char → Option Emit) (totalLimit : Bool) (maxLen : Nat) (rules : List (List Fn × Fn)) :
+    Except SizeErr Nat :=
   match lowerRules emit rules 0 with
   | .error e => .error e
   | .ok (n, ds) =>
-    match addSets (List.replicate maxLen 0) ds with
-    | .error e => .error e
-    | .ok _ => .ok (n + 1)
+    if totalLimit ∧ n + 1 > maxLen then .error .oversize
+    else
+      match addSets (List.replicate maxLen 0) ds with
+      | .error e => .error e
+      | .ok _ => .ok (n + 1)
 
 /-- `RoutingMatcherBuilder.registerProgramParsers` + the `add*` callbacks -/
 def routingEmit (name : List Char) : Option Emit :=
